@@ -69,5 +69,6 @@ def run(ctx):
         r5.check(not bad, '%s:returns-before-any-action-when-flagexitasap' % nm, '%s:%s' % (fn.unit, nm), 'actions not guarded by !flagexitasap: %s' % bad)
     ms = qsend.analyse_main(db, rep)
     attach(r5, ms, only={'main:loop-left-only-on-TERM-with-no-delivery-in-flight', 'main:retry-times-saved-before-exit-0'})
-    r5.expect_min(6)
+    attach(r5, dst, only={'ds:del_canexit-iff-no-live-channel-has-a-delivery-in-flight'})
+    r5.expect_min(7)
     rep.assume('exactly-once over histories and the documented crash window between delivery and mark are not decided', 'plain char is signed')
